@@ -16,6 +16,7 @@
  * Monitors: callback bound (termination), event nesting on success, snapshot on
  * failure; ASan/UBSan/LSan by the runner.
  */
+#include <stdio.h>
 #include <stdlib.h>
 #include <ctype.h>
 #include <sys/uio.h>
@@ -200,6 +201,8 @@ typedef struct {
 	uint16_t sect, opt;
 	bytes doc;
 	int pristine;                   /* grammar document without mutation */
+	const char *fmtarg;             /* description in an exact-size heap block (0: use f.str) */
+	const char *limits;             /* name flags as mpt_parse_accept() string, 0: library default */
 	char desc[200];
 } testcase;
 
@@ -237,9 +240,9 @@ static const char *retname(int ret)
 static void count_ret(const char *prefix, int ret)
 {
 	/* counter names must be literals or stable: build from a small fixed set */
-	static char names[3][10][48];
+	static char names[4][10][48];
 	static const int codes[10] = { 0, -1, -2, -3, -4, -0x10, -0x11, -0x80, -999, 999 };
-	int p = prefix[0] == 'A' ? 0 : prefix[0] == 'B' ? 1 : 2, i;
+	int p = prefix[0] == 'A' ? 0 : prefix[0] == 'B' ? 1 : prefix[0] == 'C' ? 2 : 3, i;
 	for (i = 0; i < 8; i++) if (codes[i] == ret) break;
 	if (i == 8 && ret > 0) i = 9;
 	if (!names[p][i][0]) snprintf(names[p][i], sizeof(names[p][i]), "ret:%s:%s", prefix, retname(ret));
@@ -398,7 +401,7 @@ static void drive_node(const testcase *tc, vf_rng *r)
 		vf_log("B: mpt_parse_node %s err_at=%zd mode=%d round=%d existing=%zu", tc->desc, (ssize_t) err_at, mode, round, walk(root.children, 0));
 		vf_at("mpt_parse_node");
 		vf_count("mpt_parse_node", 1);
-		ret = mpt_parse_node(&root, &ctx, tc->f.null ? 0 : tc->f.str);
+		ret = mpt_parse_node(&root, &ctx, tc->f.null ? 0 : tc->fmtarg ? tc->fmtarg : tc->f.str);
 		vf_log("B: = %d (%s) getc=%llu", ret, retname(ret), (unsigned long long) in.calls);
 		vf_count("monitor:callback-bound-checks", in.calls);
 		count_ret("B", ret);
@@ -429,6 +432,49 @@ static void drive_node(const testcase *tc, vf_rng *r)
 	mpt_node_clear(&root);
 }
 
+/* D: mpt_node_parse() - stdio input, description and name limits as strings; replaces the children on success */
+static void drive_nodeparse(const testcase *tc, vf_rng *r)
+{
+	MPT_STRUCT(node) root = MPT_NODE_INIT;
+	static bytes before, after;
+	uint8_t *text = vf_xalloc(tc->doc.n);
+	FILE *fp;
+	int ret, populated = vf_chance(r, 2, 3);
+
+	memcpy(text, tc->doc.d, tc->doc.n);
+	fp = tc->doc.n ? fmemopen(text, tc->doc.n, "r") : fopen("/dev/null", "r");
+	if (!fp) vf_inconclusive("cannot open memory stream of %zu bytes", tc->doc.n);
+	if (populated) build_existing(r, &root);
+	snapshot(&before, &root);
+	vf_fp_u64(0xD0 ^ ((uint64_t) populated << 8));
+	vf_log("D: mpt_node_parse %s limits=%s existing=%zu", tc->desc, tc->limits ? tc->limits : "(default)", walk(root.children, 0));
+	vf_at("mpt_node_parse");
+	vf_count("mpt_node_parse", 1);
+	ret = mpt_node_parse(&root, fp, tc->f.null ? 0 : tc->fmtarg ? tc->fmtarg : tc->f.str, tc->limits, 0);
+	vf_log("D: = %d (%s)", ret, retname(ret));
+	count_ret("D", ret);
+	if (!tc->f.next) {
+		VF_CHECK(ret < 0, "model:node_parse:unknown-family-accepted", "D %s: format type '%c' has no parser but %d was returned", tc->desc, tc->f.type, ret);
+	}
+	if (ret < 0) {
+		snapshot(&after, &root);
+		vf_count("monitor:snapshot-compared", 1);
+		if (root.children) vf_count("monitor:node_parse-snapshot-nonempty", 1);
+		if (before.n != after.n || memcmp(before.d, after.d, before.n)) {
+			vf_fail("model:node_parse:tree-changed-on-failure", "D %s: returned %d (%s) but the serialised target tree differs (sizes %zu / %zu)",
+			        tc->desc, ret, retname(ret), before.n, after.n);
+		}
+	} else {
+		vf_at("mpt_node_data");
+		vf_count("monitor:result-nodes-read", walk(root.children, 0));
+		vf_count("outcome:node_parse-accepted", 1);
+	}
+	fclose(fp);
+	vf_xfree(text, tc->doc.n);
+	vf_at("mpt_node_clear");
+	mpt_node_clear(&root);
+}
+
 /* ------------------------------------------------------------------ cases */
 uint64_t vf_cases(void) { return vf_thorough ? 3000000 : 240000; }
 
@@ -452,6 +498,8 @@ void vf_case(uint64_t idx, vf_rng *r)
 	tc.sect = c.sect;
 	tc.opt = c.opt;
 	fl = c.flags;
+	tc.fmtarg = c.desc;
+	tc.limits = c.sect == 0xff ? 0 : c.flags;
 	tc.doc.d = c.doc;
 	tc.doc.n = c.len;
 	kind = c.kind == 0 ? 0 : c.kind == 1 ? 45 : 85;
@@ -485,6 +533,7 @@ void vf_case(uint64_t idx, vf_rng *r)
 		if (vf_chance(r, 1, 4)) drive_loop(&tc, r);
 	}
 	if (!tc.f.next || vf_chance(r, 3, 5)) drive_node(&tc, r);
+	if (vf_chance(r, 1, 4)) drive_nodeparse(&tc, r);
 
 	vf_sample("%s", tc.desc);
 	c08_case_free(&c);
